@@ -52,6 +52,16 @@ InternUnionSeq(ms) ==
   /\ unions' = Append(unions, [i \in DOMAIN ms |-> bulk + ms[i] - 1]) /\ ret' = bulk + Len(unions)
   /\ UNCHANGED <<bulk, names, strs, vss, solvs>>
 InternUnion(a, b) == InternUnionSeq(<<a, b>>)
+\* the pool interns through a shared reference, so the iterator that yields the members of
+\* a union may itself intern another union while the outer call is still consuming it
+\* (a nested any-of group registered on the fly): the inner union is complete first and
+\* gets the lower id, the outer call returns the id of ITS union, <<a, b>>
+InternUnionNested(a, b) ==
+  /\ a \in DOMAIN vss /\ b \in DOMAIN vss
+  /\ Len(unions) + 1 < MaxUnion + 1
+  /\ unions' = unions \o << <<bulk + b - 1>>, <<bulk + a - 1, bulk + b - 1>> >>
+  /\ ret' = bulk + Len(unions) + 1
+  /\ UNCHANGED <<bulk, names, strs, vss, solvs>>
 
 Next == \/ \E n \in NameVals : InternName(n)
         \/ \E s \in StrVals : InternString(s)
